@@ -440,8 +440,6 @@ Proof.
   - apply ejust_mono; assumption.
 Qed.
 
-Definition tgt (s : stmt) : option vname := match s with SSubst _ v _ _ _ _ => Some v | _ => None end.
-Definition is_ldef (s : stmt) : bool := match s with SSubst _ _ _ _ _ st => stype_is_local st | _ => false end.
 Definition sigq (s : stmt) : option vname * bool := (tgt s, is_ldef s).
 Definition def_claim (s : stmt) : option vred := match s with SSubst _ _ _ rhe _ _ => expr_val rhe | _ => None end.
 Definition def_upd (s : stmt) : bool := match s with SSubst _ _ _ rhe _ _ => is_update rhe | _ => false end.
@@ -564,4 +562,349 @@ Proof.
   - destruct (pv_expr p env e) as [[b1 e']| | |] eqn:E; try discriminate. cbn [bind].
     intros [= <- <- <-]. split6; try reflexivity; try apply env_le_refl; try apply Hext; try apply Hsame.
     exact (proj1 (pv_expr_good p env e Hj _ _ E)).
+Qed.
+
+(* ================= Part 3: the whole statement list ================= *)
+(* every binding of the environment is the claim of all defining assignments *)
+Definition env_backed (ss : list stmt) (env : venv) : Prop :=
+  forall v x, venv_get env v = Some x -> all_defs_claim ss v x = true.
+
+(* a variable that has a local defining assignment has no other assignment *)
+Definition uniq (l : list (option vname * bool)) : Prop :=
+  forall A B v, l = A ++ (Some v, true) :: B -> forall y, In y (A ++ B) -> fst y <> Some v.
+
+Lemma defines_tgt v s : defines v s = true <-> tgt s = Some v.
+Proof.
+  destruct s; cbn; try (split; [discriminate|discriminate]).
+  rewrite vname_eqb_eq. split; congruence.
+Qed.
+
+Lemma defines_sigq v s s' : sigq s' = sigq s -> defines v s' = defines v s.
+Proof.
+  unfold sigq. intros [= Ht _].
+  destruct (defines v s) eqn:E.
+  - apply defines_tgt. rewrite Ht. apply defines_tgt. exact E.
+  - destruct (defines v s') eqn:E'; [|reflexivity]. apply defines_tgt in E'. rewrite Ht in E'.
+    apply defines_tgt in E'. congruence.
+Qed.
+
+Lemma all_defs_claim_app ss1 ss2 v x :
+  all_defs_claim (ss1 ++ ss2) v x =
+  forallb (def_ok v x) ss1 && forallb (def_ok v x) ss2 && (existsb (defines v) ss1 || existsb (defines v) ss2).
+Proof. unfold all_defs_claim. rewrite forallb_app, existsb_app. reflexivity. Qed.
+
+Lemma def_ok_spec v x s :
+  def_ok v x s = true <->
+  (tgt s = Some v -> is_ldef s = true /\ def_upd s = false /\ def_claim s = Some x).
+Proof.
+  destruct s; cbn [def_ok tgt is_ldef def_upd def_claim]; try (split; [discriminate|reflexivity]).
+  destruct (vname_eqb v0 v) eqn:E.
+  - apply vname_eqb_eq in E. subst v0. rewrite !andb_true_iff, negb_true_iff, opt_vred_eqb_eq. tauto.
+  - split; [|reflexivity]. intros _ [= ->]. rewrite vname_eqb_refl in E. discriminate.
+Qed.
+
+Section Lists.
+Variable p : Z.
+
+Definition Inv (ss : list stmt) (env : venv) : Prop :=
+  Forall (sjust p env) ss /\ env_backed ss env.
+
+(* replacing one statement by its propagated version keeps the invariant *)
+Lemma step_inv A s B env b s' env' :
+  uniq (map sigq (A ++ s :: B)) ->
+  Inv (A ++ s :: B) env -> pv_stmt p env s = Ok (b, s', env') ->
+  Inv (A ++ s' :: B) env' /\ map sigq (A ++ s' :: B) = map sigq (A ++ s :: B) /\ env_le env env'.
+Proof.
+  intros Hu [Hj Hb] Hpv.
+  assert (Hjs : sjust p env s) by (rewrite Forall_forall in Hj; apply Hj; apply in_or_app; right; left; reflexivity).
+  destruct (pv_stmt_good p env s b s' env' Hjs Hpv) as (Hle & Hjs' & Hsig & Hupd & Hext & Hnew).
+  split; [|split; [|exact Hle]].
+  - split.
+    + (* every statement is justified in the larger environment *)
+      rewrite Forall_forall in *. intros t Ht. apply in_app_or in Ht as [Ht|[<-|Ht]].
+      * eapply sjust_mono; [exact Hle|]. apply Hj. apply in_or_app. left. exact Ht.
+      * exact Hjs'.
+      * eapply sjust_mono; [exact Hle|]. apply Hj. apply in_or_app. right. right. exact Ht.
+    + (* every binding is backed *)
+      intros w x Hw. rewrite all_defs_claim_app. cbn [forallb existsb].
+      destruct (Hnew w x Hw) as [Hold|(Ht & Hl & Hu' & Hc)].
+      * specialize (Hb w x Hold). rewrite all_defs_claim_app in Hb. cbn [forallb existsb] in Hb.
+        apply andb_true_iff in Hb as [Hb He]. apply andb_true_iff in Hb as [HA HsB]. apply andb_true_iff in HsB as [Hs HB].
+        rewrite HA, HB, (defines_sigq w s s' Hsig), He. rewrite !andb_true_r, andb_true_l.
+        apply def_ok_spec. intros Htg.
+        assert (Htg0 : tgt s = Some w) by (unfold sigq in Hsig; congruence).
+        destruct (proj1 (def_ok_spec w x s) Hs Htg0) as (H1 & H2 & H3).
+        unfold sigq in Hsig. injection Hsig as _ Hld. repeat split; [congruence|congruence|apply Hext; exact H3].
+      * (* a new binding, produced by this very statement *)
+        assert (Htg0 : tgt s = Some w) by (unfold sigq in Hsig; congruence).
+        assert (Hl0 : is_ldef s = true) by (unfold sigq in Hsig; congruence).
+        assert (Hothers : forall t, In t (A ++ B) -> tgt t <> Some w).
+        { intros t0 Ht0. rewrite map_app in Hu. cbn [map] in Hu.
+          assert (Hsq : sigq s = (Some w, true)) by (unfold sigq; congruence). rewrite Hsq in Hu.
+          specialize (Hu (map sigq A) (map sigq B) w eq_refl (sigq t0)).
+          rewrite <- map_app in Hu. specialize (Hu (in_map sigq _ _ Ht0)). exact Hu. }
+        assert (HA : forallb (def_ok w x) A = true).
+        { apply forallb_forall. intros t0 Ht0. apply def_ok_spec. intros Hc'. exfalso.
+          apply (Hothers t0); [apply in_or_app; left; exact Ht0|exact Hc']. }
+        assert (HB : forallb (def_ok w x) B = true).
+        { apply forallb_forall. intros t0 Ht0. apply def_ok_spec. intros Hc'. exfalso.
+          apply (Hothers t0); [apply in_or_app; right; exact Ht0|exact Hc']. }
+        rewrite HA, HB. cbn [andb].
+        assert (Hd : defines w s' = true) by (apply defines_tgt; exact Ht).
+        rewrite Hd. rewrite orb_true_r. rewrite !andb_true_r.
+        apply def_ok_spec. intros _. auto.
+  - rewrite !map_app. cbn [map]. rewrite Hsig. reflexivity.
+Qed.
+
+(* a block body: prefix A already processed, suffix C untouched *)
+Lemma stmts_inv : forall ss2 A C env res b ss2' env',
+  uniq (map sigq (A ++ ss2 ++ C)) -> Inv (A ++ ss2 ++ C) env ->
+  pv_stmts p env res ss2 = Ok (b, ss2', env') ->
+  Inv (A ++ ss2' ++ C) env' /\ map sigq (A ++ ss2' ++ C) = map sigq (A ++ ss2 ++ C) /\ env_le env env'.
+Proof.
+  induction ss2 as [|s tl IH]; intros A C env res b ss2' env' Hu Hi; cbn [pv_stmts].
+  - intros [= <- <- <-]. split; [exact Hi|split; [reflexivity|apply env_le_refl]].
+  - destruct res.
+    + intros [= <- <- <-]. split; [exact Hi|split; [reflexivity|apply env_le_refl]].
+    + destruct (pv_stmt p env s) as [[[b1 s'] env1]| | |] eqn:Es; try discriminate. cbn [bind].
+      destruct (pv_stmts p env1 b1 tl) as [[[b2 tl'] env2]| | |] eqn:Et; try discriminate. cbn [bind].
+      intros [= <- <- <-].
+      change (A ++ (s :: tl) ++ C) with (A ++ s :: (tl ++ C)) in *.
+      destruct (step_inv A s (tl ++ C) env b1 s' env1 Hu Hi Es) as (Hi1 & Hm1 & Hle1).
+      assert (Happ : forall X, (A ++ [s']) ++ X = A ++ s' :: X) by (intros X; rewrite <- app_assoc; reflexivity).
+      assert (Hu1 : uniq (map sigq ((A ++ [s']) ++ tl ++ C))) by (rewrite Happ, Hm1; exact Hu).
+      assert (Hi1' : Inv ((A ++ [s']) ++ tl ++ C) env1) by (rewrite Happ; exact Hi1).
+      destruct (IH (A ++ [s']) C env1 b1 b2 tl' env2 Hu1 Hi1' Et) as (Hi2 & Hm2 & Hle2).
+      rewrite (Happ (tl' ++ C)) in Hi2, Hm2. rewrite (Happ (tl ++ C)) in Hm2.
+      change (A ++ (s' :: tl') ++ C) with (A ++ s' :: (tl' ++ C)).
+      split; [exact Hi2|]. split; [rewrite Hm2; exact Hm1|]. eapply env_le_trans; eauto.
+Qed.
+
+Lemma all_stmts_app bs1 bs2 : all_stmts (bs1 ++ bs2) = all_stmts bs1 ++ all_stmts bs2.
+Proof. unfold all_stmts. apply flat_map_app. Qed.
+
+Lemma all_stmts_cons b bs : all_stmts (b :: bs) = b_stmts b ++ all_stmts bs.
+Proof. reflexivity. Qed.
+
+(* one pass over the blocks *)
+Lemma blocks_inv : forall bs2 bs1 env res b bs2' env',
+  uniq (map sigq (all_stmts (bs1 ++ bs2))) -> Inv (all_stmts (bs1 ++ bs2)) env ->
+  pv_blocks p env res bs2 = Ok (b, bs2', env') ->
+  Inv (all_stmts (bs1 ++ bs2')) env' /\
+  map sigq (all_stmts (bs1 ++ bs2')) = map sigq (all_stmts (bs1 ++ bs2)) /\ env_le env env'.
+Proof.
+  induction bs2 as [|blk tl IH]; intros bs1 env res b bs2' env' Hu Hi; cbn [pv_blocks].
+  - intros [= <- <- <-]. split; [exact Hi|split; [reflexivity|apply env_le_refl]].
+  - destruct res.
+    + intros [= <- <- <-]. split; [exact Hi|split; [reflexivity|apply env_le_refl]].
+    + destruct (pv_stmts p env false (b_stmts blk)) as [[[r1 ss'] env1]| | |] eqn:Es; try discriminate. cbn [bind].
+      destruct (pv_blocks p env1 r1 tl) as [[[r2 tl'] env2]| | |] eqn:Et; try discriminate. cbn [bind].
+      intros [= <- <- <-].
+      rewrite all_stmts_app, all_stmts_cons in Hu, Hi.
+      destruct (stmts_inv (b_stmts blk) (all_stmts bs1) (all_stmts tl) env false r1 ss' env1 Hu Hi Es) as (Hi1 & Hm1 & Hle1).
+      assert (Happ : forall X, (bs1 ++ [set_stmts blk ss']) ++ X = bs1 ++ set_stmts blk ss' :: X)
+        by (intros X; rewrite <- app_assoc; reflexivity).
+      assert (Heq : forall X, all_stmts (bs1 ++ set_stmts blk ss' :: X) = all_stmts bs1 ++ ss' ++ all_stmts X).
+      { intros X. rewrite all_stmts_app, all_stmts_cons. reflexivity. }
+      assert (Hu1 : uniq (map sigq (all_stmts ((bs1 ++ [set_stmts blk ss']) ++ tl)))) by (rewrite Happ, Heq, Hm1; exact Hu).
+      assert (Hi1' : Inv (all_stmts ((bs1 ++ [set_stmts blk ss']) ++ tl)) env1) by (rewrite Happ, Heq; exact Hi1).
+      destruct (IH (bs1 ++ [set_stmts blk ss']) env1 r1 r2 tl' env2 Hu1 Hi1' Et) as (Hi2 & Hm2 & Hle2).
+      rewrite (Happ tl') in Hi2, Hm2. rewrite (Happ tl) in Hm2.
+      split; [exact Hi2|]. split.
+      * rewrite Hm2, Heq, Hm1. rewrite all_stmts_app, all_stmts_cons. reflexivity.
+      * eapply env_le_trans; eauto.
+Qed.
+
+(* any number of passes *)
+Lemma passes_inv : forall k env bs bs' env',
+  uniq (map sigq (all_stmts bs)) -> Inv (all_stmts bs) env ->
+  values_passes k p env bs = Ok (bs', env') ->
+  Inv (all_stmts bs') env' /\ map sigq (all_stmts bs') = map sigq (all_stmts bs).
+Proof.
+  induction k as [|k IH]; intros env bs bs' env' Hu Hi; cbn [values_passes].
+  - intros [= <- <-]. auto.
+  - destruct (pv_blocks p env false bs) as [[[rerun bs1] env1]| | |] eqn:Ep; try discriminate. cbn [bind].
+    destruct (blocks_inv bs [] env false rerun bs1 env1 Hu Hi Ep) as (Hi1 & Hm1 & _). cbn [app] in Hi1, Hm1.
+    destruct rerun.
+    + intros Hk. assert (Hu1 : uniq (map sigq (all_stmts bs1))) by (rewrite Hm1; exact Hu).
+      destruct (IH env1 bs1 bs' env' Hu1 Hi1 Hk) as (Hi2 & Hm2). split; [exact Hi2|congruence].
+    + intros [= <- <-]. auto.
+Qed.
+End Lists.
+
+(* ================= Part 4: from the invariant to the validator ================= *)
+Lemma claim_is_vred k o :
+  claim_is k o -> match kval k with None => true | Some c => opt_vred_eqb o c end = true.
+Proof.
+  unfold claim_is. destruct (kval k); [|reflexivity]. intros ->. apply opt_vred_eqb_eq. reflexivity.
+Qed.
+
+Lemma vjust_list_all p env ss (es : list expr) :
+  Forall (fun e => ejust p env e -> vjust_expr ss p e = true) es -> Forall (ejust p env) es ->
+  (fix vjust_list (es : list expr) : bool :=
+     match es with [] => true | x :: tl => vjust_expr ss p x && vjust_list tl end) es = true.
+Proof.
+  induction es as [|x tl IH]; intros Hi Hj; [reflexivity|].
+  apply Forall_cons_iff in Hi as [Hi1 Hi2]. apply Forall_cons_iff in Hj as [Hj1 Hj2].
+  rewrite (Hi1 Hj1). cbn [andb]. apply IH; assumption.
+Qed.
+
+Lemma vjust_acc_all p env ss (acc : list (access expr)) :
+  Forall (fun e => ejust p env e -> vjust_expr ss p e = true) (acc_exprs acc) -> Forall (ejust p env) (acc_exprs acc) ->
+  (fix vjust_acc (acc : list (access expr)) : bool :=
+     match acc with
+     | [] => true
+     | AIdx x :: tl => vjust_expr ss p x && vjust_acc tl
+     | AComp _ :: tl => vjust_acc tl
+     end) acc = true.
+Proof.
+  induction acc as [|a tl IH]; intros Hi Hj; [reflexivity|].
+  destruct a as [x|n]; cbn [acc_exprs flat_map app] in Hi, Hj.
+  - apply Forall_cons_iff in Hi as [Hi1 Hi2]. apply Forall_cons_iff in Hj as [Hj1 Hj2].
+    rewrite (Hi1 Hj1). cbn [andb]. apply IH; assumption.
+  - apply IH; assumption.
+Qed.
+
+Lemma ejust_vjust p env ss e : env_backed ss env -> ejust p env e -> vjust_expr ss p e = true.
+Proof.
+  intros Hb.
+  induction e as [z k|v k|op l r k IHl IHr|op e k IHe|c t f k IHc IHt IHf|n args k IHargs|vs k IHvs
+                  |v acc k IHacc|v acc rhe k IHacc IHrhe|args k] using expr_ind'; intros Hj; cbn [vjust_expr].
+  - destruct (ej_num_inv _ _ _ _ Hj) as [Hz Hk]. apply andb_true_iff. split; [apply Z.leb_le; exact Hz|].
+    unfold claim_is in Hk. destruct (kval k); [|reflexivity]. injection Hk as <-. apply vred_eqb_eq. reflexivity.
+  - pose proof (ej_var_inv _ _ _ _ Hj) as Hk. unfold claim_is in Hk. destruct (kval k) as [c|]; [|reflexivity].
+    apply Hb. exact Hk.
+  - destruct (ej_infix_inv _ _ _ _ _ _ Hj) as (Hl & Hr & Hk). rewrite IHl, IHr by assumption. cbn [andb].
+    destruct (kval k) as [c|]; [|reflexivity]. rewrite (Hk c eq_refl). apply vred_eqb_eq. reflexivity.
+  - destruct (ej_prefix_inv _ _ _ _ _ Hj) as (He & Hk). rewrite IHe by assumption. cbn [andb].
+    apply claim_is_vred. exact Hk.
+  - destruct (ej_switch_inv _ _ _ _ _ _ Hj) as (Hc & Ht & Hf & Hk). rewrite IHc, IHt, IHf by assumption. cbn [andb].
+    apply claim_is_vred. exact Hk.
+  - destruct (ej_call_inv _ _ _ _ _ Hj) as (Ha & Hk). unfold claim_none. rewrite Hk, andb_true_r.
+    apply (vjust_list_all p env ss args IHargs Ha).
+  - destruct (ej_array_inv _ _ _ _ Hj) as (Ha & Hk). unfold claim_none. rewrite Hk, andb_true_r.
+    apply (vjust_list_all p env ss vs IHvs Ha).
+  - destruct (ej_access_inv _ _ _ _ _ Hj) as (Ha & Hk). unfold claim_none. rewrite Hk, andb_true_r.
+    apply (vjust_acc_all p env ss acc IHacc Ha).
+  - destruct (ej_update_inv _ _ _ _ _ _ Hj) as (Ha & Hr & Hk). unfold claim_none. rewrite Hk, andb_true_r.
+    rewrite IHrhe by assumption. cbn [andb]. apply (vjust_acc_all p env ss acc IHacc Ha).
+  - pose proof (ej_phi_inv _ _ _ _ Hj) as Hk. destruct (kval k) as [c|]; [|reflexivity].
+    destruct (Hk c eq_refl) as [Hne Hall]. apply andb_true_iff. split.
+    + destruct args; [congruence|reflexivity].
+    + apply forallb_forall. intros a Ha. apply Hb. apply Hall. exact Ha.
+Qed.
+
+Lemma sjust_vjust p env ss s : env_backed ss env -> sjust p env s -> vjust_stmt ss p s = true.
+Proof.
+  intros Hb. destruct s; cbn [sjust vjust_stmt].
+  - intros H. apply forallb_forall. intros e He. rewrite Forall_forall in H. eapply ejust_vjust; eauto.
+  - eapply ejust_vjust; eauto.
+  - eapply ejust_vjust; eauto.
+  - intros [H1 H2]. rewrite (ejust_vjust p env ss rhe Hb H1). cbn [andb].
+    destruct sval as [c|]; [|reflexivity]. destruct (H2 c eq_refl) as [Hu Hv]. rewrite Hu. cbn [negb andb].
+    apply opt_vred_eqb_eq. exact Hv.
+  - intros [H1 H2]. rewrite (ejust_vjust p env ss l Hb H1), (ejust_vjust p env ss r Hb H2). reflexivity.
+  - intros H. apply forallb_forall. intros a Ha. rewrite Forall_forall in H. specialize (H a Ha).
+    destruct a; [reflexivity|]. cbn in *. eapply ejust_vjust; eauto.
+  - eapply ejust_vjust; eauto.
+Qed.
+
+Lemma Inv_validated p ss env : Inv p ss env -> forallb (vjust_stmt ss p) ss = true.
+Proof.
+  intros [Hj Hb]. apply forallb_forall. intros s Hs. rewrite Forall_forall in Hj.
+  eapply sjust_vjust; eauto.
+Qed.
+
+(* ---------- the initial state ---------- *)
+Require Import Proofs.CutProofs.
+
+Lemma clean_ejust p e : clean_expr e = true -> ejust p [] e.
+Proof.
+  induction e as [z k|v k|op l r k IHl IHr|op e k IHe|c t f k IHc IHt IHf|n args k IHargs|vs k IHvs
+                  |v acc k IHacc|v acc rhe k IHacc IHrhe|args k] using expr_ind';
+    cbn [clean_expr expr_know]; intros H; apply andb_true_iff in H as [Hk H]; unfold claim_none in Hk;
+    destruct (kval k) eqn:Ek; try discriminate.
+  - apply ej_num; [apply Z.leb_le; exact H|]. unfold claim_is. rewrite Ek. exact I.
+  - apply ej_var. unfold claim_is. rewrite Ek. exact I.
+  - apply andb_true_iff in H as [H1 H2]. apply ej_infix; auto. intros c Hc. congruence.
+  - apply ej_prefix; auto. unfold claim_is. rewrite Ek. exact I.
+  - apply andb_true_iff in H as [H H3]. apply andb_true_iff in H as [H1 H2]. apply ej_switch; auto.
+    unfold claim_is. rewrite Ek. exact I.
+  - apply ej_call; [|exact Ek]. clear Ek. induction args as [|x tl IH]; [constructor|].
+    apply Forall_cons_iff in IHargs as [I1 I2]. apply andb_true_iff in H as [Hx Ht]. constructor; auto.
+  - apply ej_array; [|exact Ek]. clear Ek. induction vs as [|x tl IH]; [constructor|].
+    apply Forall_cons_iff in IHvs as [I1 I2]. apply andb_true_iff in H as [Hx Ht]. constructor; auto.
+  - apply ej_access; [|exact Ek]. clear Ek. induction acc as [|x tl IH]; [constructor|].
+    destruct x as [x|n]; cbn [acc_exprs flat_map app] in *.
+    + apply Forall_cons_iff in IHacc as [I1 I2]. apply andb_true_iff in H as [Hx Ht]. constructor; auto.
+    + auto.
+  - apply andb_true_iff in H as [Hr Ha]. apply ej_update; [|auto|exact Ek]. clear Ek.
+    induction acc as [|x tl IH]; [constructor|].
+    destruct x as [x|n]; cbn [acc_exprs flat_map app] in *.
+    + apply Forall_cons_iff in IHacc as [I1 I2]. apply andb_true_iff in Ha as [Hx Ht]. constructor; auto.
+    + auto.
+  - apply ej_phi. intros c Hc. congruence.
+Qed.
+
+Lemma clean_sjust p s : clean_stmt s = true -> sjust p [] s.
+Proof.
+  destruct s; cbn [clean_stmt sjust]; intros H.
+  - rewrite forallb_forall in H. apply Forall_forall. intros e He. apply clean_ejust. auto.
+  - apply clean_ejust. exact H.
+  - apply clean_ejust. exact H.
+  - apply andb_true_iff in H as [H1 H2]. split; [apply clean_ejust; exact H1|].
+    destruct sval; [discriminate|]. intros c Hc. discriminate.
+  - apply andb_true_iff in H as [H1 H2]. split; apply clean_ejust; assumption.
+  - rewrite forallb_forall in H. apply Forall_forall. intros a Ha. specialize (H a Ha).
+    destruct a; [exact I|]. cbn. apply clean_ejust. exact H.
+  - apply clean_ejust. exact H.
+Qed.
+
+Lemma clean_Inv p ss : forallb clean_stmt ss = true -> Inv p ss [].
+Proof.
+  intros H. split.
+  - apply Forall_forall. intros s Hs. rewrite forallb_forall in H. apply clean_sjust. auto.
+  - intros v x Hv. discriminate.
+Qed.
+
+(* ---------- local definitions are unique: a checkable condition ---------- *)
+Lemma filter_length_app {A} (f : A -> bool) l1 l2 :
+  length (filter f (l1 ++ l2)) = (length (filter f l1) + length (filter f l2))%nat.
+Proof. rewrite filter_app, app_length. reflexivity. Qed.
+
+Lemma filter_none {A} (f : A -> bool) l : length (filter f l) = 0%nat -> forall x, In x l -> f x = false.
+Proof.
+  induction l as [|a tl IH]; intros H x Hx; [contradiction|]. cbn [filter] in H.
+  destruct (f a) eqn:Ea; [discriminate|]. destruct Hx as [<-|Hx]; auto.
+Qed.
+
+Lemma ldefs_unique_uniq ss : ldefs_unique ss = true -> uniq (map sigq ss).
+Proof.
+  intros H A B v Heq y Hy Hfst.
+  (* split ss along the decomposition of its signature list *)
+  apply map_eq_app in Heq as (A' & R & -> & <- & HR).
+  destruct R as [|s B']; [discriminate|]. cbn [map] in HR. unfold sigq at 1 in HR. injection HR as Ht Hl HB. subst B.
+  unfold ldefs_unique in H. rewrite forallb_forall in H.
+  assert (Hins : In s (A' ++ s :: B')) by (apply in_or_app; right; left; reflexivity).
+  specialize (H s Hins).
+  rewrite Hl, Ht in H. cbn [negb orb] in H.
+  apply Nat.eqb_eq in H. rewrite filter_length_app in H. cbn [filter] in H.
+  assert (Hd : defines v s = true) by (apply defines_tgt; exact Ht). rewrite Hd in H. cbn [length] in H.
+  assert (H1 : length (filter (defines v) A') = 0%nat) by lia.
+  assert (H2 : length (filter (defines v) B') = 0%nat) by lia.
+  rewrite <- map_app in Hy. apply in_map_iff in Hy as (t & <- & Ht').
+  assert (Hf : defines v t = false).
+  { apply in_app_or in Ht' as [Hin|Hin]; [exact (filter_none (defines v) A' H1 t Hin)|exact (filter_none (defines v) B' H2 t Hin)]. }
+  unfold sigq in Hfst. cbn [fst] in Hfst. apply defines_tgt in Hfst. congruence.
+Qed.
+
+(* ================= the universal statement of C20 (values) ================= *)
+Theorem mirror_validated_at_every_budget k p c bs env :
+  clean_cfg c = true -> ldefs_unique (all_stmts (c_blocks c)) = true ->
+  values_passes k p [] (c_blocks c) = Ok (bs, env) ->
+  vjust_cfg p (set_blocks c bs) = true.
+Proof.
+  intros Hclean Hu Hk. unfold vjust_cfg. cbn [set_blocks c_blocks].
+  destruct (passes_inv p k [] (c_blocks c) bs env (ldefs_unique_uniq _ Hu) (clean_Inv p _ Hclean) Hk) as [Hi _].
+  apply Inv_validated with (env := env). exact Hi.
 Qed.
